@@ -61,7 +61,7 @@ def _vj(v):
     """shape-only projection for probes; a value too big to carry is a wildcard"""
     try:
         return runner.value_json(v, force=False, limit=60)
-    except runner.TooBig:
+    except (runner.TooBig, ValueError, OverflowError):      # (an integer of thousands of digits cannot be written out)
         return {"w": 1}
 
 
@@ -197,7 +197,7 @@ def run_traced(text, flags="", inputs=(), budget=200, online=False):
                 final_stack = common.with_alarm(
                     lambda _: [runner.value_json(v, force=True, limit=60)
                                for v in (ctx.stacks[0] if ctx and ctx.stacks else [])], None, 4)
-            except (ProbeBudget, common.CaseTimeout, RecursionError, runner.TooBig):
+            except (ProbeBudget, common.CaseTimeout, RecursionError, runner.TooBig, ValueError, OverflowError):
                 final_stack = []
                 raised = raised or "budget"      # not evaluated
             except BaseException as e:  # noqa: BLE001  forcing a lazy value may raise
